@@ -297,4 +297,18 @@ Proof.
     + refine (LOOP false L pre (c :: p1) _ eq_refl eq_refl _). subst L; lia.
 Qed.
 
+(* hence, of the regenerated source, on a class in its documented form (items a, a-b, escapes; closed by a bracket): the
+   function returns the index just after the closing bracket exactly when the character belongs to the class (xor negation),
+   and -1 otherwise *)
+Corollary tie_range_match_doc pre neg items rest t : forallb citem_ok items = true ->
+  xrun (38 + length (class_text neg items ++ rest)) range_match_params range_match_locals range_match_gen
+       [XS (pre ++ class_text neg items ++ rest); XZ (Z.of_nat (length pre)); XS [t]] =
+  Ok (XZ (if xorb (existsb (citem_has t) items) neg then Z.of_nat (length (pre ++ class_text neg items)) else (-1)%Z)).
+Proof.
+  intro H. rewrite tie_range_match, (class_doc neg items rest t H).
+  destruct (xorb (existsb (citem_has t) items) neg); cbn [range_match_result]; [|reflexivity].
+  do 2 f_equal. rewrite !app_length. lia.
+Qed.
+
 Print Assumptions tie_range_match.
+Print Assumptions tie_range_match_doc.
